@@ -199,24 +199,52 @@ pub fn interned(t: &str) -> &'static str {
     g.insert(s);
     return s;
   }
-  let s: &'static str = Box::leak(t.to_string().into_boxed_str());
+  // the text starts 0-7 bytes into its allocation (a pure function of the content): `&'static str`s in a real binary
+  // sit at arbitrary addresses, heap strings at aligned ones
+  let pad = t.bytes().fold(t.len(), |a, b| a.wrapping_mul(31).wrapping_add(b as usize)) % 8;
+  let mut buf = String::with_capacity(pad + t.len());
+  buf.push_str(&"\u{1}".repeat(pad));
+  buf.push_str(t);
+  let leaked: &'static str = Box::leak(buf.into_boxed_str());
+  let s: &'static str = &leaked[pad..];
   g.insert(s);
   s
 }
 
+thread_local! {
+  static RESPELL: std::cell::Cell<u8> = const { std::cell::Cell::new(0) };
+}
+
+/// Run `f` with every raw leaf built through another public constructor spelling than `build` normally
+/// picks for it (shift 1 or 2 in the cycle From<String> -> From<&str> -> from_static): the values built are equal
+/// to the normally spelled ones by content, only where their text lives differs.
+pub fn with_respell<R>(shift: u8, f: impl FnOnce() -> R) -> R {
+  struct Reset(u8);
+  impl Drop for Reset {
+    fn drop(&mut self) {
+      RESPELL.with(|c| c.set(self.0));
+    }
+  }
+  let _reset = Reset(RESPELL.with(|c| c.replace(shift % 3)));
+  f()
+}
+
 /// which public constructor spelling a raw leaf is built with: a pure function of its content, so every
 /// build of a Spec makes the same constructor calls (0: From<String> / From<Vec<u8>>, 1: From<&str> /
-/// From<&[u8]>, 2: from_static - short texts only, the table above never shrinks)
+/// From<&[u8]>, 2: from_static; `with_respell` rotates the choice)
+/// longest text handed to `from_static` (the interning table never shrinks; long texts are one leaf in a hundred)
+const STATIC_MAX: usize = 9000;
+
 fn spelling(len: usize, first: u8) -> u8 {
   // (by the first byte only, so that a text and its prefixes are spelled the same way)
   let _ = len;
-  first % 3
+  (first % 3 + RESPELL.with(|c| c.get())) % 3
 }
 
 fn raw_leaf(t: &str) -> RawSource {
   match spelling(t.len(), t.as_bytes().first().copied().unwrap_or(0)) {
     1 => RawSource::from(t),
-    2 if t.len() <= 64 => RawSource::from_static(interned(t)),
+    2 if t.len() <= STATIC_MAX => RawSource::from_static(interned(t)),
     _ => RawSource::from(t.to_string()),
   }
 }
@@ -224,7 +252,7 @@ fn raw_leaf(t: &str) -> RawSource {
 fn raw_str_leaf(t: &str) -> RawStringSource {
   match spelling(t.len(), t.as_bytes().first().copied().unwrap_or(0)) {
     1 => RawStringSource::from(t),
-    2 if t.len() <= 64 => RawStringSource::from_static(interned(t)),
+    2 if t.len() <= STATIC_MAX => RawStringSource::from_static(interned(t)),
     _ => RawStringSource::from(t.to_string()),
   }
 }
